@@ -134,6 +134,32 @@ func H_C16_Bip340Vector() {
 	vsym.Reach("bip340-vector-checked")
 }
 
+// H_C16_InfiniteR: the degenerate signature r = 0^32, s = e*d (so that s*G - e*P is the point at infinity), built for
+// a choice of concrete keys, is rejected by the library exactly as BIP-340's "fail if is_infinite(R)" demands. Concrete
+// curve (the real decred code runs inside the engine): the affine image of infinity is (0,0), whose Y is even and whose
+// x matches r, so only the explicit infinity check stands between this input and acceptance.
+func H_C16_InfiniteR() {
+	group := curve.Secp256k1{}
+	keys := []string{"0000000000000000000000000000000000000000000000000000000000000003", "B7E151628AED2A6ABF7158809CF4F3C762E7160F38B4DA56A784D9045190CFEF",
+		"C90FDAA22168C234C4C6628B80DC1CD129024E088A67CC74020BBEA63B14E5C9", "0B432B2677937381AEF05BB02A66ECD012773062CF3FA2549E44F58ED2401710"}
+	sk := SecretKey(unhex(keys[vsym.Choose("key", len(keys))]))
+	pk, err := sk.Public()
+	vsym.Assume(err == nil)
+	m := []byte("0123456789abcdef0123456789abcdef")
+	d := group.NewScalar()
+	vsym.Assume(d.UnmarshalBinary(sk) == nil)
+	if !d.ActOnBase().(*curve.Secp256k1Point).HasEvenY() {
+		d.Negate()
+	}
+	r := make([]byte, 32)
+	e := group.NewScalar().SetNat(new(saferith.Nat).SetBytes(refTagged("BIP0340/challenge", r, pk, m)))
+	sb, _ := e.Mul(d).MarshalBinary()
+	sig := append(append([]byte{}, r...), sb...)
+	vsym.Assert(!refVerify(pk, m, sig), "BIP-340 algorithm rejects the signature whose R is the point at infinity")
+	vsym.Assert(!pk.Verify(Signature(sig), m), "library verification rejects the signature whose R is the point at infinity")
+	vsym.Reach("infinite-r-checked")
+}
+
 // H_C16_VerifyArbitrary: Verify on arbitrary 64 bytes never panics and rejects wrong lengths (concrete-curve model with
 // opaque symbolic values).
 func H_C16_VerifyArbitrary() {
